@@ -111,3 +111,11 @@ func KnownOrViolation(t TB, property, test, id string, c interface{}, what strin
 	}
 	Violation(t, property, test, c, "%s (finding %s is not listed as known)", what, id)
 }
+
+// Inconclusive aborts the process with the marker the driver maps to exit 2 (watchdog expiry, fixture could
+// not be set up, …). Never use it for an oracle failure.
+func Inconclusive(format string, args ...interface{}) {
+	Flush()
+	fmt.Printf("VERIF-INCONCLUSIVE "+format+"\n", args...)
+	os.Exit(3)
+}
